@@ -7,7 +7,10 @@ HERE = os.path.dirname(os.path.dirname(os.path.abspath(__file__)))
 
 CLAIMED = {
     "C01": ("4 (C01)", "shared SurfaceMesh queried by interleaved clients, cache drops, reordered + fresh-instance re-runs; oracle RefSurface (brute force over the face list)"),
+    "C02": ("4 (C02)", "build / re-wrap / re-build / observe histories of one raw spec through every constructor path and container flavour, completion switches flipped by a co-resident client; oracle RefNormalise"),
+    "C03": ("4 (C03)", "shared VolumeMesh queried by interleaved clients incl. boundary extraction, cache drops, reordered + fresh-instance re-runs; oracle RefVolume (brute force over the cell list)"),
     "C05": ("4 (C05)", "stateful histories on containers with twin sparse/dense attributes, rejected operations injected anywhere; oracle RefAttr + sparse-vs-dense lock-step"),
+    "C06": ("4 (C06)", "pool of meshes from every producer, clients interleaving copy/merge/transform/edit calls, every mesh compared with an independent float64 model after every call"),
     "C20": ("4 (C20)", "stateful histories on one shared UnionFind and PriorityQueue by several clients, rejected operations injected; oracles RefUF / RefPQ"),
 }
 
